@@ -62,6 +62,17 @@ MAP = [
  ("S66", "C17", "B", "tail-check-behind-genesis-early-return", "a crash between frame append and commit flush of the FIRST-EVER transaction, restart, one more step, one more recovery", "first run: missed (an Option decider was treated as always legitimate)"),
  ("S67", "C18", "A", "max-min-through-zero-padded-comparator", "a Reduce(Max/Min) channel where the extreme is attained by payloads differing only in trailing zero bytes", "first run: missed"),
  ("S68", "C18", "B", "commutative-channels-folded-on-arrival", "a Reduce(BitAnd) channel, a longer payload emitted before a shorter one", "first run: caught (C18.R1-R3 structure rules: pending map type, emit/finalize shape)"),
+ ("S69", "C19", "A", "vec3-normalize-guards-squared-length", "a finite vector whose squared length overflows f32 (|v| > ~1.84e19)", "first run: missed (no rule looked at divisions; the same shape was a genuine defect of Quat::from_axis_angle, F11)"),
+ ("S70", "C19", "B", "q32-to-f32-signed-abs", "the raw value i64::MIN (what from_f32 saturates to for large negative inputs): debug builds panic, release wraps", "first run: missed"),
+ ("S71", "C20", "A", "retention-index-keyed-by-coordinate-digest", "two coordinates whose schema/artifact hex strings are not fixed-width, so their concatenation coincides", "first run: caught (C20.R4 index keyed by the full coordinate)"),
+ ("S72", "C20", "B", "cas-addressed-retained-blobs-presence-only", "an importer-side CAS holding a present but corrupted, truncated or padded retained blob", "first run: missed"),
+ ("S73", "C01", "A", "radix-hybrid-bucket-zero-unsorted", ">1024 candidates in one tx, two of them conflicting with scope hashes starting 0x0000", "first run: caught, but only fail-closed (C01.R1/C03.R6 radix shape anchors: the LSD passes they decide are gone)"),
+ ("S74", "C03", "A", "port-claims-mutate-while-checking", "an accepted candidate holding port Q, then a multi-port candidate touching free P before Q, then a candidate touching only P", "first run: caught (C03.R1 has_conflict cells, C03.R2 mark_all)"),
+ ("S75", "C03", "B", "shared-overlaps-predicate-flipped-edge-clause", "an accepted edge writer followed by a candidate that only reads that edge", "first run: caught (C03.R1 conflict-matrix cell e_read~e_write)"),
+ ("S76", "C05", "A", "checkpoint-validation-skips-validated-prefix", "an honest checkpoint at K>=1, then a foreign checkpoint at N>K differing only at an index below K, then a replay to >=N", "first run: missed"),
+ ("S77", "C05", "B", "receipt-digest-check-skipped-for-empty-receipt", "a retained receipt truncated at rest to zero candidates (same tx), then a replay across that tick", "first run: caught (C05.R3 guard strength: the ReceiptDigestMismatch gate gained a value-test decider)"),
+ ("S78", "C07", "A", "finalize-skips-empty-outputs", "a commit with outputs followed by a commit with none; a replay ending on the empty one that does not start from U0", "first run: missed"),
+ ("S79", "C07", "B", "checkpoint-state-before-inclusive", "a checkpoint stored at exactly target+1 and a restore (service replay, backward seek, or forward seek across another checkpoint)", "first run: missed"),
 ]
 SRC_PREFIX = {k: "out1" for k in ("S09", "S10", "S11", "S12", "S13", "S14", "S15", "S16", "S17", "S18", "S19", "S20", "S21", "S22", "S23", "S24", "S25", "S26", "S27", "S28")}
 SRC_PREFIX.update({k: "out2" for k in ("S29", "S30", "S31", "S32", "S33", "S34", "S37", "S38", "S41", "S42", "S45", "S46")})
@@ -123,6 +134,17 @@ CHANGE = {
  "S66": "the `tail_posture != Clean` check moves from `recover` into `external_action_wal_continuation`, after the genesis early return",
  "S67": "Max/Min use `max_by`/`min_by` with a zero-padding comparator",
  "S68": "commutative-reducer channels are folded as payloads arrive; the in-place BitAnd step never truncates a longer accumulator",
+ "S69": "`Vec3::normalize` classifies degenerate vectors on the squared length and divides by `det_sqrt_f32(len_sq)`, which clamps an overflowed square to 0",
+ "S70": "`fixed_q32_32::to_f32` takes the magnitude with `raw.abs() as u64` instead of `unsigned_abs()`",
+ "S71": "`RetainedBlobIndex` re-keyed from the full `SemanticBlobCoordinate` to a BLAKE3 digest that concatenates two variable-width fields without length prefixes; lookups never re-compare the coordinate",
+ "S72": "`validate_cas_addressed_retained_blob_availability` asks the CAS port `has_cas_blob` (new provided method) instead of fetching, re-hashing and length-checking the blob",
+ "S73": "`PendingTx::radix_sort` replaced by one counting pass on 16 bits + `sort_unstable_by(cmp_thin)` per bucket; the bucket loop walks `counts.windows(2)` and never sorts bucket 0",
+ "S74": "`RadixScheduler::reserve` claims ports with an insert-if-absent `GenSet::claim` during the conflict check: a candidate rejected on a later port keeps its earlier ports reserved",
+ "S75": "`Footprint::independent` and `footprints_conflict` share a new `overlaps`; its third edge clause is a flipped duplicate, losing `earlier e_write ∩ later e_read`",
+ "S76": "`validate_checkpoint_for_history` skips the artifact comparison for the prefix covered by the nearest earlier stored checkpoint (`.skip(validated_prefix_len)`)",
+ "S77": "`replay_artifacts_for_entry` merges the retained-receipt and placeholder branches; the decision-digest check is guarded by `!receipt.entries().is_empty()`",
+ "S78": "`finalize_replay_metadata` rebuilds `last_materialization` only when the last replayed entry's outputs are non-empty",
+ "S79": "`LocalProvenanceStore::checkpoint_state_before` rewritten with `partition_point(|c| tick(c) <= tick)` (contract: `<`)",
  "S48": "`restore_receipt_correlation` returns Ok early when the correlation is already present, skipping the committed-ingress refill",
  "S40": "`diff_edges` matches edges through the reverse indexes (from/to only): a type-only change emits no `UpsertEdge`",
 }
@@ -138,7 +160,7 @@ for sid, prop, var, slug, needs, first in MAP:
         shutil.copy(os.path.join(src, "demo", f), os.path.join(dst, "demo", f))
     if os.path.exists(src + "/notes.md"):
         shutil.copy(src + "/notes.md", dst + "/agent_notes.md")
-    log = "/tmp/seeds/confirm-logs/%s%s-%s.log" % ("r3-" if sid >= "S49" else "", prop, var)
+    log = "/tmp/seeds/confirm-logs/%s%s-%s.log" % ("r4-" if sid >= "S69" else "r3-" if sid >= "S49" else "", prop, var)
     confirmed, conf_txt = False, "confirmation pending"
     if os.path.exists(log):
         t = open(log).read()
